@@ -347,6 +347,11 @@ def scenario(chk, pr, xvc, idx, rng, forced=None):
                     shutil.rmtree(sb.path(d))
                     before = {k2: v for k2, v in before.items() if not (k2 == d or k2.startswith(d + '/'))}
                     ents = disk_tree(sb)
+                    # recheck_from_cache re-creates the parents: the model works on the tree that has them
+                    for t2 in lost:
+                        parts = t2.split('/')[:-1]
+                        for k2 in range(1, len(parts) + 1):
+                            if ('D', '/'.join(parts[:k2])) not in ents: ents.append(('D', '/'.join(parts[:k2])))
                     rc, out, err = sb.x('file', 'recheck', *lost)
                     dops = sorted({os.path.dirname(t) for t in lost})
                     exp = model_after(pr, 'ghandler', ents, dops[:1] if len(dops) == 1 else None or dops, lost) if len(dops) == 1 else None
